@@ -4,6 +4,7 @@ import Gimli.Lemmas.Abbrev
 import Gimli.Lemmas.UnitHeader
 import Gimli.Lemmas.DieSibling
 import Gimli.Lemmas.DieTree
+import Gimli.Lemmas.DieTotal
 import Gimli.Props.C03
 /-!
 # C02 — The DIE forest is reported exactly as encoded, by every navigation API
@@ -219,6 +220,27 @@ theorem header_sizes (e : Endian) (sect : Sect) (off : Nat) (h : Header) (entrie
       UnitHeader.rootOffset, Unit.encodeUnit, unitLength, List.length_append, encodeLength_length,
       encodeBody_length, hu] <;>
     refine ⟨by first | omega | trivial, by first | omega | trivial, trivial, by first | omega | trivial⟩
+
+/-! ## (6) totality: every input, well formed or not -/
+
+/-- reading entries until the input is empty never panics and never runs out of the supplied
+fuel (`input length + 1` steps always suffice): it ends normally or with an error -/
+theorem raw_total (ctx : Ctx) (fuel : Nat) (r : Raw) (h : r.input.length < fuel) :
+    (rawAll ctx fuel r).2.Normal :=
+  rawAll_total ctx fuel r h
+
+/-- `next_entry`, `next_dfs`, `next_sibling` and `EntriesTree::next` terminate with a value or an
+error on every input and from every state -/
+theorem cursor_steps_total (ctx : Ctx) (c : Cursor) (t : Tree) (D : Int) :
+    (c.nextEntry ctx).Normal ∧ (Cursor.nextDfs ctx (c.raw.input.length + 1) c).Normal ∧
+      (c.nextSibling ctx).Normal ∧ (t.next ctx D).Normal :=
+  ⟨nextEntry_normal ctx c, nextDfs_total ctx _ c (Nat.lt_succ_self _), nextSibling_total ctx c,
+    treeNext_total ctx t D⟩
+
+/-- `Abbreviations::parse` and `parse_unit_header` on every byte string -/
+theorem parse_total (e : Endian) (sect : Sect) (off : Nat) (bs : Bytes) :
+    (Abbreviations.parse bs).Normal ∧ (parseUnitHeader e sect off bs).Normal :=
+  ⟨abbreviationsParse_total bs, parseUnitHeader_total e sect off bs⟩
 
 /-! ## non-vacuity: a concrete unit that satisfies the hypotheses -/
 
